@@ -31,7 +31,7 @@ class TrackProgram:
 
         kinds = ["zero", "one", "unmeasured", "reset", "remeasured", "random"]
         for _ in range(r.randrange(2, 6)):
-            place = r.choice(["main", "block", "loop", "func", "reg", "field", "multi", "method", "smethod", "ctor", "ret"])
+            place = r.choice(["main", "block", "loop", "func", "reg", "field", "multi", "method", "smethod", "ctor", "ret", "dtorfield"])
             kind = r.choice(kinds)
             if place == "main":
                 q = name("a")
@@ -76,6 +76,20 @@ class TrackProgram:
                 how = r.choice(["scope", "destroy"])
                 for _ in range(cnt):
                     body += ["{ %s o = new %s(); %s %s }" % (c, c, " ".join(st), "destroy o;" if how == "destroy" else "")]
+                self.expected["%s.%s" % (c, fq)] = {"exits": cnt, "outcome": out}
+            elif place == "dtorfield":
+                # the object's destructor performs the last operations on its tracked field: the record is taken after it
+                c, fq, cnt = name("D"), name("dq"), r.randrange(1, 4)
+                flip = r.random() < 0.5
+                dt = r.choice(["measure", "xmeasure", "resetx"])
+                dbody = {"measure": "measure %s;" % fq, "xmeasure": "x(%s); measure %s;" % (fq, fq),
+                         "resetx": "reset %s; x(%s); measure %s;" % (fq, fq, fq)}[dt]
+                out = {"measure": "1" if flip else "0", "xmeasure": "0" if flip else "1", "resetx": "1"}[dt]
+                classes.append("class %s { @tracked public qubit %s; public constructor() -> %s = default; public destructor() -> void { %s } }"
+                               % (c, fq, c, dbody))
+                how = r.choice(["scope", "destroy"])
+                for _ in range(cnt):
+                    body += ["{ %s o = new %s(); %s %s }" % (c, c, ("x(o.%s);" % fq) if flip else "", "destroy o;" if how == "destroy" else "")]
                 self.expected["%s.%s" % (c, fq)] = {"exits": cnt, "outcome": out}
             elif place in ("method", "smethod"):
                 # a tracked local directly in a method body (instance or static), the method called m times
